@@ -206,6 +206,8 @@ pub enum Ev {
     ChurnIds { dim: String, n: usize },
     /// `n` user keys issued in a row for the same policy (many registered identifiers).
     KeygenBurst { user: usize, pol: PolArg, n: usize },
+    /// The master key comes back with one more tracer (higher tracing level).
+    RaiseTracing,
     /// C11, "ML-KEM material bound into the secret": the user's key with the ML-KEM
     /// decapsulation key of the secret that opens `slot` replaced by another one must no
     /// longer open a hybridized encapsulation.
@@ -258,6 +260,7 @@ impl Ev {
             Ev::ScaleProbe { .. } => "ScaleProbe",
             Ev::ChurnIds { .. } => "ChurnIds",
             Ev::KeygenBurst { .. } => "KeygenBurst",
+            Ev::RaiseTracing => "RaiseTracing",
             Ev::PqBinding { .. } => "PqBinding",
             Ev::EncryptOtherThread { .. } => "EncryptOtherThread",
         }
